@@ -112,8 +112,10 @@ impl FsDir {
                             });
                         }
                     }
-                    Err(ref e) if e.kind() == ErrorKind::NotFound => {}
-                    Err(e) => return Err(e),
+                    // Fall back to the path as requested; if it can't be opened either, the
+                    // caller gets the error for that path rather than for the `.gz` probe
+                    // (which may be e.g. `ENAMETOOLONG` when the plain name is fine).
+                    Err(_) => {}
                 };
                 buf.truncate(path_len);
             }
